@@ -9,6 +9,7 @@ import (
 	"math/rand"
 	"os"
 	"path/filepath"
+	"runtime/debug"
 	"sort"
 	"strconv"
 	"strings"
@@ -400,7 +401,7 @@ func Main(id, tier, replayPath string) int {
 				}
 			}
 		}
-		err = cp.Run(c)
+		err = safeRun(cp, c)
 	}
 	if err != nil {
 		c.Inconclusive(err.Error())
@@ -440,6 +441,16 @@ func Main(id, tier, replayPath string) int {
 	}
 	fmt.Printf("OK %s tier=%s seed=%d evaluations=%d distinct_nontrivial=%d inconclusive=%d wall=%.1fs\n", id, tier, seed, c.evaluations, len(c.nontrivial)+c.nontrivialN, len(c.inconclusive), time.Since(c.Start).Seconds())
 	return 0
+}
+
+// safeRun: a panic inside the harness is a harness defect, never a verdict on gocc.
+func safeRun(cp *Campaign, c *Ctx) (err error) {
+	defer func() {
+		if r := recover(); r != nil {
+			err = fmt.Errorf("harness panic: %v\n%s", r, debug.Stack())
+		}
+	}()
+	return cp.Run(c)
 }
 
 // sortedKeys is a small helper for deterministic iteration.
